@@ -134,6 +134,7 @@ fn test(case: &Case, st: &mut Stats, counting: bool) -> CaseResult {
     let mut trace: Vec<String> = vec![];
     let mut facts = (0usize, 0usize, false, 0usize, 0usize, 0usize); // sets ok, not-supported, subsec, fields-with-session-between cases, lower-only observations
     let mut idle_total = 0usize;
+    let mut reader_total = 0usize;
     let r = guarded(|| -> Result<(), (usize, String)> {
         let e0 = |m: String| (0usize, m);
         let n = case.cfg.overlay_layers();
@@ -166,6 +167,7 @@ fn test(case: &Case, st: &mut Stats, counting: bool) -> CaseResult {
         let mut sessions_at: std::collections::BTreeMap<&str, Vec<usize>> = Default::default();
         let mut st_during = 0usize;
         let mut st_idle = 0usize;
+        let mut st_reader = 0usize;
         for (i, op) in case.ops.iter().enumerate() {
             let step = i + 1;
             match op {
@@ -316,6 +318,8 @@ fn test(case: &Case, st: &mut Stats, counting: bool) -> CaseResult {
                     let files: Vec<&str> = ENTRIES.iter().filter(|(_, d)| !*d).map(|(p, _)| *p).collect();
                     let path = files[idx((*e as u16) << 8, files.len())];
                     let p = at(&root, path).map_err(|e| (step, e.to_string()))?;
+                    // in a quarter of the sessions a read handle on the same file is alive meanwhile
+                    let reader = if e & 0xC0 == 0xC0 { p.open_file().ok() } else { None };
                     let before = m_of(&p.metadata().map_err(|e| (step, e.to_string()))?);
                     let is_append = matches!(op, TOp::Append(..));
                     {
@@ -323,7 +327,11 @@ fn test(case: &Case, st: &mut Stats, counting: bool) -> CaseResult {
                         h.write_all(&make_bytes(d)).map_err(|e| (step, e.to_string()))?;
                     }
                     let after = m_of(&p.metadata().map_err(|e| (step, e.to_string()))?);
-                    trace.push(format!("{} session on '{}'", if is_append { "append" } else { "create" }, path));
+                    trace.push(format!("{} session on '{}'{}", if is_append { "append" } else { "create" }, path, if reader.is_some() { " while a read handle on it is open" } else { "" }));
+                    if reader.is_some() {
+                        st_reader += 1;
+                    }
+                    drop(reader);
                     if is_append && base == "mem" && after.created != before.created {
                         return Err((step, format!("appending to '{}' changed its creation time from {:?} to {:?}", path, before.created, after.created)));
                     }
@@ -371,6 +379,7 @@ fn test(case: &Case, st: &mut Stats, counting: bool) -> CaseResult {
         }
         facts.5 = st_during;
         idle_total = st_idle;
+        reader_total = st_reader;
         for (p, sets) in &fields_set {
             let kinds: std::collections::BTreeSet<TimeField> = sets.iter().map(|(f, _)| *f).collect();
             if kinds.len() >= 2 {
@@ -402,6 +411,7 @@ fn test(case: &Case, st: &mut Stats, counting: bool) -> CaseResult {
                 st.label_n("lower_only_setters_checked", facts.4 as u64);
                 st.label_n("setters_during_open_handle_verified", facts.5 as u64);
                 st.label_n("failing_or_idle_calls_verified", idle_total as u64);
+                st.label_n("write_sessions_with_live_reader", reader_total as u64);
                 if case.both && case.cfg.overlay_layers() >= 2 {
                     st.label("directories_present_in_upper_and_lowest_layer");
                 }
@@ -450,7 +460,7 @@ pub fn replay(v: &Value) -> CaseResult {
     test(&case, &mut st, false)
 }
 
-const RULE: &str = "time values from {epoch, +-1s, +-1e9, +-2e9, 2^31 boundary, 4e9, 1e10, 1.5e10 s} x {0,1,999999999,5e8,123456789,1000 ns} plus random sub-second parts, filtered at start-up by RAW OS calls to what the scratch filesystem round-trips exactly; the three setters in random order and repetition on two files and two directories, interleaved with create and append sessions and with calls on the entry that fail by contract or have nothing to do (create_dir / create_file / append_file on an existing directory, create_dir_all on it, create_dir / read_dir / remove_dir on a file): those must leave all three timestamps, length and type untouched; stacks Mem/Phys/altroot/overlay (entry in the upper layer; in half of the overlay cases the directories also exist in the lowest layer and /f0 exists there with other bytes) incl. nesting; oracle: metadata immediately before/after each setter: Ok => set field exact, the two other timestamps, length and type unchanged, bytes unchanged; unsupported (creation time over PhysicalFS) => NotSupported and metadata unchanged; supported setters must succeed; MemoryFS append keeps created; altroot/overlay report the timestamps of the served entry; non-trivial = >=2 different fields set on one entry with a write/append session between, and a value with a non-zero sub-second part";
+const RULE: &str = "time values from {epoch, +-1s, +-1e9, +-2e9, 2^31 boundary, 4e9, 1e10, 1.5e10 s} x {0,1,999999999,5e8,123456789,1000 ns} plus random sub-second parts, filtered at start-up by RAW OS calls to what the scratch filesystem round-trips exactly; the three setters in random order and repetition on two files and two directories, interleaved with create and append sessions (a quarter of them while a read handle on the same file is alive) and with calls on the entry that fail by contract or have nothing to do (create_dir / create_file / append_file on an existing directory, create_dir_all on it, create_dir / read_dir / remove_dir on a file): those must leave all three timestamps, length and type untouched; stacks Mem/Phys/altroot/overlay (entry in the upper layer; in half of the overlay cases the directories also exist in the lowest layer and /f0 exists there with other bytes) incl. nesting; oracle: metadata immediately before/after each setter: Ok => set field exact, the two other timestamps, length and type unchanged, bytes unchanged; unsupported (creation time over PhysicalFS) => NotSupported and metadata unchanged; supported setters must succeed; MemoryFS append keeps created; altroot/overlay report the timestamps of the served entry; non-trivial = >=2 different fields set on one entry with a write/append session between, and a value with a non-zero sub-second part";
 
 pub fn run(ctx: &RunCtx) -> i32 {
     let usable = usable_times().len();
